@@ -38,8 +38,13 @@ func HAtomicSession() {
 	in = append(in, wholeFileStream(0, newA, seed)...)
 	sb := wholeFileStream(1, newB, seed)
 	if nd_bool() {
-		// damage one byte of the second file's segment (literal byte or trailer)
-		pos := nd_range(20, len(sb)-1)
+		// flip one bit of the second file's literal byte or of its checksum trailer
+		// (damaged token words are C03's subject; under the ideal-hash model a damaged
+		// length field could be "repaired" by a freely chosen digest value)
+		pos := 24
+		if k := nd_range(0, 16); k > 0 {
+			pos = 28 + k
+		}
 		sb[pos] ^= 1 << uint(nd_range(0, 7))
 		vreach("damaged")
 	}
